@@ -1,3 +1,11 @@
+module List = Stdlib.List
+module String = Stdlib.String
+module Option = Stdlib.Option
+module Array = Stdlib.Array
+module Bytes = Stdlib.Bytes
+module Char = Stdlib.Char
+module Buffer = Stdlib.Buffer
+module Printf = Stdlib.Printf
 (* C16 model driver.  Input: the implementation's observation lines (which carry the op and,
    for pushes, the real encoded size).  Output: the model's observation lines in the same
    format (minus implementation-only fields). *)
